@@ -194,10 +194,25 @@ func c14EndBlock(w *e.World, m *c14Model) *e.Violation {
 		dcp := sub(get(post.cp, d), get(pre.cp, d))      // scaled by 1e18
 		ddistr := sub(get(post.distr, d), get(pre.distr, d))
 		want := sub(left, get(refunds, d)) // what was neither kept nor refunded must be in the pool
-		if new(big.Int).Mul(want, scale).Cmp(dcp) != 0 {
+		// A validator that staking removes in this EndBlock (unbonded with no
+		// tokens left) has its commission paid out (W) and the remainder of its
+		// outstanding rewards (R >= 0) moved into the community pool by the
+		// distribution hook; both are visible as a drop of the outstanding rewards.
+		W, R := new(big.Int), new(big.Int)
+		if d == e.Denom && post.out.Cmp(pre.out) != 0 {
+			// (accounts also receive unbonding entries that mature in this EndBlock,
+			// paid from the staking pools)
+			W = sub(sub(sub(post.accts, pre.accts), get(refunds, d)), sub(pre.pools, post.pools))
+			R = sub(sub(pre.out, post.out), new(big.Int).Mul(W, scale))
+			if W.Sign() < 0 || R.Sign() < 0 {
+				return e.Violatef("burn-redirect", "outstanding-rewards-changed-in-endblock", "block %d: outstanding rewards went from %s to %s (1e-18) during EndBlock while accounts gained %s beyond the refunds", w.Height, pre.out, post.out, W)
+			}
+			w.Stats.Probe("validator_removed_in_endblock")
+		}
+		if new(big.Int).Add(new(big.Int).Mul(want, scale), R).Cmp(dcp) != 0 {
 			return e.Violatef("burn-redirect", "gov-burn-not-in-community-pool:"+d, "block %d, %s: gov module released %s, refunds %s, so %s were 'burned'; community pool grew by %s/1e18, distribution module by %s", w.Height, d, left, get(refunds, d), want, dcp, ddistr)
 		}
-		if ddistr.Cmp(want) != 0 {
+		if ddistr.Cmp(sub(want, W)) != 0 {
 			return e.Violatef("burn-redirect", "distribution-module-not-holding-burned-deposits:"+d, "block %d, %s: %s burned deposits but distribution module balance changed by %s", w.Height, d, want, ddistr)
 		}
 		if want.Sign() > 0 {
